@@ -3,6 +3,7 @@ package main
 import (
 	"bytes"
 	"context"
+	"errors"
 	"fmt"
 	"path/filepath"
 	"sort"
@@ -456,6 +457,66 @@ func runMigrate(dir string, seed uint64, tier string) {
 			fail(id, "second-start-not-ready", "the second start never announced readiness", label, nil, nil)
 		}
 		final, _, ver2, _ := readStore()
+		// ----- a migrated channel honours its preserved data limit against its preserved totals, like a native
+		// channel with the same history: the first new block reported after a start pauses exactly when the
+		// preserved total plus the block reaches the preserved limit (direct monitor; the store is not compared after it)
+		if ready && secondReady {
+			ch2 := impl.VerifChannelsOf(m2)
+			toks := make([]int, 0, len(decoded))
+			for t := range decoded {
+				toks = append(toks, t)
+			}
+			sort.Ints(toks)
+			for _, t := range toks {
+				d := decoded[t]
+				chid := datatransfer.ChannelID{Initiator: d.Initiator, Responder: d.Responder, ID: d.TransferID}
+				cur, err := ch2.GetByID(ctx, chid)
+				if err != nil || !transferring(cur.Status()) {
+					continue
+				}
+				recv := r.chance(50)
+				total, count := cur.Queued(), cur.QueuedCidsTotal()
+				if recv {
+					total, count = cur.Received(), cur.ReceivedCidsTotal()
+				}
+				limit := cur.DataLimit()
+				if count >= 1<<62 {
+					continue
+				}
+				delta := uint64(1 + r.intn(50))
+				if limit > total {
+					switch r.intn(3) {
+					case 0:
+						delta = limit - total
+					case 1:
+						if limit-total > 1 {
+							delta = limit - total - 1
+						}
+					}
+				}
+				if total+delta < total {
+					continue // the sum leaves 64 bits
+				}
+				wantPause := limit != 0 && total+delta >= limit
+				var rerr error
+				if recv {
+					rerr = ch2.DataReceived(chid, cidOf(1), delta, count+1, true)
+				} else {
+					rerr = ch2.DataQueued(chid, cidOf(1), delta, count+1, true)
+				}
+				gotPause := errors.Is(rerr, datatransfer.ErrPause)
+				if rerr != nil && !gotPause {
+					continue
+				}
+				res.hist(fmt.Sprintf("limit-probe:pause=%v", wantPause))
+				if gotPause != wantPause {
+					fail(id, "migrated-channel-data-limit-not-honoured", "a migrated channel does not check its preserved data limit against its preserved totals: a native channel with the same history would have answered differently", label,
+						fmt.Sprintf("pause=%v (received-report=%v total=%d delta=%d limit=%d)", gotPause, recv, total, delta, limit), fmt.Sprintf("pause=%v", wantPause))
+					res.fail(monitorFailure{Property: "C08", CaseID: id, Signature: "stored-channel-data-limit-not-honoured", What: "a channel loaded from the datastore does not check its data limit against its recorded total", Input: label,
+						Observed: fmt.Sprintf("pause=%v (received-report=%v total=%d delta=%d limit=%d)", gotPause, recv, total, delta, limit), Expected: fmt.Sprintf("pause=%v", wantPause)})
+				}
+			}
+		}
 		_ = m2.Stop(ctx)
 		if ready && (strings.Join(final, ";") != strings.Join(before2, ";") || ver2 != "3" || !secondReady) {
 			fail(id, "restart-on-migrated-store-changed-it", "starting again on an already migrated store changed a record, the version, or failed", label, nil, nil)
